@@ -696,7 +696,6 @@ func genWidePar2(r *Rng, emit func(Case)) {
 			t.ints(randDigits(r, r.Range(1, 6)))
 			t.i(r.Pick([]int{0, 1, 3}))
 			t.i(-1)
-			t.i(-1)
 			t.i(r.Pick([]int{0, 1}))
 			prec := r.Range(300, 500)
 			t.i(prec + r.Range(5, 30))
